@@ -3,6 +3,7 @@
 import json, glob, os, re
 rows=[]
 for d in sorted(glob.glob('/verif/seeded/*/')):
+    if not os.path.exists(d+'meta.json'): continue
     m=json.load(open(d+'meta.json'))
     res=m.get('check_results','')
     caught=[]
@@ -22,7 +23,7 @@ out=['## 8. Sensitivity: property-breaking changes and which check catches them\
 for r in rows:
     out.append(f'| {r[0]} | {r[2]} | {r[3]} | {r[4]} | {r[5]} |')
 n=len(rows); c=sum(1 for r in rows if r[4]!='none')
-out.append(f'\n{c} of {n} changes are caught by the quick tier of the check of the property they break (or of a neighbouring property, as listed).\n')
+out.append(f'\n{c} of {n} changes are caught by the quick tier of the check of the property they break (or of a neighbouring property, as listed); the others say NOT CAUGHT and why in the last column.\n')
 s=open('/verif/DESIGN.md').read()
 i=s.index('## 8. Sensitivity')
 open('/verif/DESIGN.md','w').write(s[:i]+'\n'.join(out)+'\n')
